@@ -290,6 +290,19 @@ func runC13(c *Ctx) {
 			}
 			return false
 		}
+		// a file that failed to load contributes nothing to the index (no Spec kept from an
+		// earlier scan, no partial result): no insertion is reachable from the failure edge
+		inserts := false
+		ir.Instrs(scb, func(in ssa.Instruction) {
+			if mu, ok := in.(*ssa.MapUpdate); ok {
+				if m := mapRoot(c, mu.Map); m != nil && (m == s.specsMap || m == s.devicesMap) {
+					if ir.CanReach(scb, ir.PathQuery{FromEdge: &bad, To: in}) {
+						inserts = true
+					}
+				}
+			}
+		})
+		r.Check("C13.3", "failure-isolated", !inserts, c.pos(iff), "after a load failure the callback inserts nothing into the Spec and device indexes (a failing file cannot shadow or conflict with devices of valid files)")
 		esc := ir.CanReach(scb, ir.PathQuery{FromEdge: &bad, Stop: recordedOrLoop})
 		r.Check("C13.3", "failure-recorded", !esc, c.pos(iff), "on a load failure every path records the error under the file's path before the callback returns")
 	}
